@@ -31,7 +31,7 @@ const (
 
 // cParse splits a format by the C grammar  %[flags][width][.precision]conv .
 // malformedAt is the kind of problem of the first bad directive.
-func cParse(format string) (dirs []cdir, st cstatus) {
+func cParse(format string) (dirs []cdir, st cstatus, bad byte) {
 	i := 0
 	n := len(format)
 	for i < n {
@@ -45,7 +45,7 @@ func cParse(format string) (dirs []cdir, st cstatus) {
 		}
 		i += j + 1
 		if i >= n {
-			return dirs, cIncomplete
+			return dirs, cIncomplete, 0
 		}
 		if format[i] == '%' {
 			dirs = append(dirs, cdir{lit: "%"})
@@ -101,16 +101,16 @@ func cParse(format string) (dirs []cdir, st cstatus) {
 			}
 		}
 		if i >= n {
-			return dirs, cIncomplete
+			return dirs, cIncomplete, 0
 		}
 		d.conv = format[i]
 		i++
 		if strings.IndexByte("diouxXcseEfgGaA", d.conv) < 0 {
-			return dirs, cUnknown
+			return dirs, cUnknown, d.conv
 		}
 		dirs = append(dirs, d)
 	}
-	return dirs, cOK
+	return dirs, cOK, 0
 }
 
 // cval is an argument as the reference sees it: its AWK string value, its AWK
@@ -440,7 +440,7 @@ func numToStr(x float64, ofmt string) (string, bool) {
 	if x == math.Trunc(x) {
 		return truncBig(x).Text(10), true
 	}
-	dirs, st := cParse(ofmt)
+	dirs, st, _ := cParse(ofmt)
 	if st != cOK {
 		return "", false
 	}
@@ -482,12 +482,21 @@ type cfeat struct {
 	sOfBigIntegral  bool // %s of a number that is an integer beyond the int64 range
 	floatConv       bool
 	convs           string
+	errWhy          string // why the reference demands a run-time error
 }
 
 // cSprintf: expected output, or wantErr (too few arguments / unknown or incomplete conversion).
 func cSprintf(chars bool, format string, args []cval, convfmt string) (out string, wantErr bool, ft cfeat) {
-	dirs, st := cParse(format)
+	dirs, st, bad := cParse(format)
 	if st != cOK {
+		switch {
+		case st == cIncomplete:
+			ft.errWhy = "incomplete-specification"
+		case strings.IndexByte(" .-+*#0123456789", bad) >= 0:
+			ft.errWhy = "malformed-directive" // a flag, '*', '.' or digit where the conversion character must be
+		default:
+			ft.errWhy = "unknown-conversion"
+		}
 		return "", true, ft
 	}
 	need := 0
@@ -503,6 +512,7 @@ func cSprintf(chars bool, format string, args []cval, convfmt string) (out strin
 		}
 	}
 	if need > len(args) {
+		ft.errWhy = "too-few-arguments"
 		return "", true, ft
 	}
 	var sb strings.Builder
